@@ -175,6 +175,11 @@ let rec parse_goal (e : sexp) : goal =
   | L (A "conj" :: gs) -> GConj (List.map parse_goal gs)
   | L (A "fresh" :: L xs :: gs) -> GFresh (List.map (fun x -> intern (atom x)) xs, List.map parse_goal gs)
   | L (A "cond" :: cs) -> GCond (parse_body cs)
+  | L (A "mapsum" :: levels) ->
+    (* the labeling combinator, nested: as answers, x is one of its values, then y one of its values, .. *)
+    GConj (List.map (fun l -> match l with
+      | L (x :: vals) -> GCond (List.map (fun v -> [GEq (parse_term x, parse_term v)]) vals)
+      | _ -> failwith "bad mapsum") levels)
   | L [A "reuse"; n; g] -> let g' = parse_goal g in GConj (List.init (int_of_string (atom n)) (fun _ -> g'))
   | L (A "disj" :: A _ :: cs) -> GCond (parse_body cs)   (* the binary-disjunction API: the same answers as conde (multiset) *)
   | L (A "conda" :: cs) -> GConda (parse_body cs)
